@@ -99,7 +99,7 @@ STRACE_SYSCALLS = "mmap,munmap,clone,clone3,set_tid_address,exit,exit_group"
 
 
 def run_probe(chk, bindir, name, script, strace=False, inject=None, timeout=120, cpus=None, trace=None,
-              launcher=None, rlimits=None):
+              launcher=None, rlimits=None, force=False):
     """Run the probe on `script` (list of lines).  A hang of the probe process itself (beyond its
     own watchdog) is data too: the process is killed and the run is marked `killed`."""
     d = os.path.join(chk.work, "runs")
@@ -125,7 +125,7 @@ def run_probe(chk, bindir, name, script, strace=False, inject=None, timeout=120,
     if cpus:
         # confine the whole process (and the tracer) to a CPU set: preemption-driven interleavings
         cmd = ["taskset", "-c", cpus] + cmd
-    if getattr(chk, "hangs", 0) >= MAX_HANGS:
+    if getattr(chk, "hangs", 0) >= MAX_HANGS and not force:
         raise HangBudget("%d runs ended in a hang" % chk.hangs)
     r = Run(name)
     r.script = script
@@ -133,6 +133,7 @@ def run_probe(chk, bindir, name, script, strace=False, inject=None, timeout=120,
     r.cpus = cpus
     r.launcher = launcher
     r.rlimits = rlimits
+    r.bindir, r.trace, r.timeout, r.used_strace = bindir, trace, timeout, strace
     t0 = time.time()
     # own session: a hung probe (threads possibly in uninterruptible waits) is killed as a whole
     # process group, and never waited for without a deadline
